@@ -528,6 +528,20 @@ func (c *FnCtx) trCall(e *Expr, env *Env) (Term, types.Type) {
 		m, mt := arg(0)
 		k, _ := arg(1)
 		return app("arrshift", m, k), mt
+	case "after":
+		// after("callee", site, expr): expr evaluated in the state right after that call returned
+		if len(e.Args) != 3 || e.Args[0].Op != "str" || e.Args[1].Op != "int" {
+			c.specFail("after(\"callee\", site, expr)")
+		}
+		site := 0
+		fmt.Sscan(e.Args[1].Name, &site)
+		sites := c.callRes[e.Args[0].Name]
+		if site >= len(sites) {
+			c.specFail("after: %s has %d call sites here", e.Args[0].Name, len(sites))
+		}
+		ne := env.child()
+		ne.st = sites[site].post
+		return c.tr(e.Args[2], ne)
 	case "result_of":
 		// result_of("callee", site, i): the i-th result of the site-th call (SSA order) of callee in this
 		// function. Meaningful only on paths that went through that call: guard it (e.g. err == nil ==> ...).
